@@ -9,7 +9,7 @@ from __future__ import annotations
 
 from typing import Any, Dict, List, Optional, Tuple
 
-from .absint import Interp, Path
+from .absint import Interp, Path, RaiseEx
 from .facts import AnalysisError
 from .models import Sym, lift_skeleton
 from .values import (NONE, AbsList, Hole, IntV, Join, ListV, Lit, Obj, Str, Unknown, Value)
@@ -219,12 +219,41 @@ def analyse_skeleton(I: Interp, pattern: Any, root_role: str = "instr") -> List[
                 continue
             if n is root:
                 n.regex = top if isinstance(top, Str) else None
+            else:
+                try:
+                    r = I.call_func(gm, [], {}, n.obj, None, None)
+                except (RaiseEx, AnalysisError):  # a sub-node that cannot be rendered alone
+                    r = None
+                n.regex = r if isinstance(r, Str) else None
+        # the node's template over its children: its own get_regex with the children's get_regex replaced by holes
+        for n in root.walk():
+            if n.regex is None:
                 continue
+            ov = {}
+            for i, c in enumerate(n.children):
+                if c.regex is not None and flatten(c.regex):
+                    ov[c.obj.oid] = Str((Hole(f"c{i}", role_kind(c.role), True, meta={"child_index": i}),))
+            gm = n.obj.cls.find_method("get_regex")
+            I.run.user["regex_override"] = ov
             try:
-                r = I.call_func(gm, [], {}, n.obj, None, None)
-            except Exception:  # a sub-node that cannot be rendered alone (e.g. deref property helper)
-                r = None
-            n.regex = r if isinstance(r, Str) else None
+                t = I.call_func(gm, [], {}, n.obj, None, None)
+            except (RaiseEx, AnalysisError):
+                t = None
+            finally:
+                I.run.user["regex_override"] = None
+            n.tmpl = t if isinstance(t, Str) else None
+        # the whole rule with every capture-group node replaced by a hole: nothing capturing may remain
+        ov = {n.obj.oid: Str((Hole(f"cap{i}", "ref", True),)) for i, n in enumerate(root.walk())
+              if n.category in ("cap", "regcap")}
+        if ov:
+            I.run.user["regex_override"] = ov
+            try:
+                ct = I.call_func(m, [], {}, tree, None, None)
+            except (RaiseEx, AnalysisError):
+                ct = None
+            finally:
+                I.run.user["regex_override"] = None
+            I.run.user["census_tmpl"] = ct if isinstance(ct, Str) else None
         return top
 
     out: List[Analysed] = []
@@ -244,15 +273,22 @@ def analyse_skeleton(I: Interp, pattern: Any, root_role: str = "instr") -> List[
                 if isinstance(lst, ListV):
                     caps = [x.text() if isinstance(x, Str) and x.is_concrete() else repr(x) for x in lst.items]
         for n in root.walk():
-            if n.regex is None:
+            if n.regex is None or n.tmpl is None:
                 continue
             kids = [(f"c{i}", c.regex, role_kind(c.role)) for i, c in enumerate(n.children) if c.regex is not None]
-            # deref: the property nodes are transparent wrappers, look through them
-            n.tmpl, counts = substitute_children(n.regex, [k for k in kids if flatten(k[1])])
+            counts: Dict[str, int] = {k[0]: 0 for k in kids}
+            for u in flatten(n.tmpl):
+                if isinstance(u, Hole) and u.tag in counts:
+                    counts[u.tag] += 1
+                elif isinstance(u, Join):
+                    for h in u.elem.holes():
+                        if h.tag in counts:
+                            counts[h.tag] += 1
             n.embed_counts = counts  # type: ignore[attr-defined]
             eq: Dict[str, set] = {}
             for t1, r1, _ in kids:
                 eq[t1] = {t2 for t2, r2, _ in kids if r2.render() == r1.render()}
             n.equiv = eq  # type: ignore[attr-defined]
         out.append(Analysed(path, root, path.value, caps, flags))
+        out[-1].census_tmpl = path.run.user.get("census_tmpl")  # type: ignore[attr-defined]
     return out
